@@ -56,6 +56,16 @@ ASSUME HeaderLaw == Size(SerHeader(H0)) = 80
 \* the witness flag of inventory types is bit 30 (BIP144)
 ASSUME InvLaw == PackVal("v", [type |-> <<1, 16384>>, hash |-> Run(0, 32)]) = Cat(Lit(<<1, 0, 0, 64>>), Run(0, 32))
 
+\* ---------------------------------------------------------------- deliberately wrong codecs (MC_P2PCodec_mut_*.cfg
+\* substitute them): each must violate a lemma above, which shows the lemmas are not vacuous
+PortLE(p) == Lit(<<p % 256, p \div 256>>)                                   \* port in host (little-endian) order
+CSNumMut(x) == LET t == Trim(x) IN                                          \* one-byte form up to 253 instead of 252
+  IF Len(t) <= 1 /\ NatOf(t) < 254 THEN Lit(<<NatOf(t)>>)
+  ELSE IF Len(t) <= 1 THEN Cat(Lit(<<253>>), LE16(Limbs(NatOf(t), 1)))
+  ELSE IF Len(t) <= 2 THEN Cat(Lit(<<254>>), LE16(<<t[1], t[2]>>))
+  ELSE Cat(Lit(<<255>>), LE16([j \in 1..4 |-> IF j <= Len(t) THEN t[j] ELSE 0]))
+V4PrefixBad == Cat(Run(0, 11), Run(255, 1))                                 \* ::ff:0:0/96
+
 ASSUME Layouts == Emit => \A m \in Messages \cup {"alert_info"} :
    PrintT(ToJson([k |-> "layout", name |-> m,
                   fields |-> [j \in 1..NFields(m) |-> [n |-> Layout(m)[j].name, t |-> TypeText(Layout(m)[j].ty)]]]))
